@@ -255,8 +255,11 @@ def main():
         "setup_cmd": "/verif/bin/setup",
         "hooks": {
             "guard": GUARD,
-            "enable": "no source hooks in /repo: the recorder (harness/verif_recorder.py) wraps public functions "
-                      "from outside, only when FUNC_ADL_VERIF=1",
+            "enable": "no source hooks in /repo: the pytest plug-in harness/verif_recorder.py wraps public functions "
+                      "from outside at import time, only when FUNC_ADL_VERIF=1 (the checks C02 C11 C15 C17 C18 C19 C20 "
+                      "run the repository's tests under it and validate the recorded calls with the same TLC trace "
+                      "specifications: cd /repo && FUNC_ADL_VERIF=1 VERIF_TRACE_FILE=<file> PYTHONPATH=/verif/harness "
+                      "/venv/bin/python -m pytest -q -p no:cacheprovider -p verif_recorder)",
             "baseline_off_cmd": BASE,
             "source_commits": [],
             "add_only": True,
